@@ -7,6 +7,7 @@
 #include "../sim/preempt.hpp"
 
 #include <algorithm>
+#include <fenv.h>
 #include <random>
 #include <stdexcept>
 #include <sstream>
@@ -36,13 +37,15 @@ enum Probe
 	P_VPOISSON,
 	P_PRISTINE,
 	P_ABORTED,
+	P_PLANT,
+	P_TRAPS,
 	P_CONC,
 	P_CONC_POINTS,
 	P_CONC_SWITCHES,
 	P_KIND0,
 	P_NPROBES = P_KIND0 + 9
 };
-const char* PROBE_NAMES[] = {"sampler_ops", "replay_from_state_checks", "poisson_mean_above_500", "poisson_mean_above_1000", "metropolis_bounded_domain_calls", "rejection_loop_10_or_more_iterations", "rejection_inefficiency_warning_branch", "fault_generator_edge_seed(0,1,5489,2^32-1)", "fault_generator_discard", "op_started_from_used_generator_state", "metropolis_grid_triples", "law_pools", "law_samples", "law_interleaved_intruder_calls", "vector_poisson_ops", "comparisons_with_a_pristine_process", "fault_user_callback_throws_mid_call", "pairs_of_calls_run_on_two_threads_at_once", "scheduling_points_(static_storage_accesses)_inside_paired_calls", "preemptions_inside_paired_calls", "kind_uniform", "kind_gauss", "kind_poisson", "kind_inverse_transform", "kind_rejection", "kind_rejection_2d", "kind_metropolis", "kind_metropolis_2d", "kind_vector_poisson"};
+const char* PROBE_NAMES[] = {"sampler_ops", "replay_from_state_checks", "poisson_mean_above_500", "poisson_mean_above_1000", "metropolis_bounded_domain_calls", "rejection_loop_10_or_more_iterations", "rejection_inefficiency_warning_branch", "fault_generator_edge_seed(0,1,5489,2^32-1)", "fault_generator_discard", "op_started_from_used_generator_state", "metropolis_grid_triples", "law_pools", "law_samples", "law_interleaved_intruder_calls", "vector_poisson_ops", "comparisons_with_a_pristine_process", "fault_user_callback_throws_mid_call", "fault_generator_state_with_planted_extreme_words(u=0_or_u=1-2^-53)", "runs_with_floating_point_traps_enabled_around_library_calls", "pairs_of_calls_run_on_two_threads_at_once", "scheduling_points_(static_storage_accesses)_inside_paired_calls", "preemptions_inside_paired_calls", "kind_uniform", "kind_gauss", "kind_poisson", "kind_inverse_transform", "kind_rejection", "kind_rejection_2d", "kind_metropolis", "kind_metropolis_2d", "kind_vector_poisson"};
 enum Metric
 {
 	M_DKW,	 // worst D / bound
@@ -201,7 +204,87 @@ struct AbortCall
 };
 
 // Executes one sampler call; returns the flattened outputs.
+// plant two equal output words `val` at distance pos, pos+1 ahead of the generator's current position
+static uint32_t mt_untemper(uint32_t y)
+{
+	y ^= y >> 18;
+	y ^= (y << 15) & 0xefc60000u;
+	uint32_t t = y;
+	for(int k = 0; k < 5; k++)
+		t = y ^ ((t << 7) & 0x9d2c5680u);
+	y = t;
+	t = y;
+	for(int k = 0; k < 3; k++)
+		t = y ^ (t >> 11);
+	return t;
+}
+void plant_words(std::mt19937& G, unsigned pos, uint32_t val)
+{
+	for(int attempt = 0; attempt < 2; attempt++)
+	{
+		std::stringstream ss;
+		ss << G;
+		std::vector<unsigned long> w;
+		unsigned long v;
+		while(ss >> v)
+			w.push_back(v);
+		if(w.size() != 625)
+			return;
+		unsigned long idx = w[624];
+		if(idx + pos + 1 >= 624)
+		{
+			if(attempt)
+				return;
+			G.discard(idx >= 624 ? 1 : 624 - idx + 1);	 // cross the next twist, then plant behind it
+			continue;
+		}
+		w[idx + pos] = w[idx + pos + 1] = mt_untemper(val);
+		std::stringstream out;
+		for(size_t k = 0; k < w.size(); k++)
+			out << (k ? " " : "") << w[k];
+		out >> G;
+		return;
+	}
+}
+
+// ambient floating-point TRAP mask: a host application may run with feenableexcept(FE_INVALID | FE_DIVBYZERO | FE_OVERFLOW), so
+// that an invalid operation (0/0, an ordered comparison with NaN), a division by zero or an overflow inside a call raises SIGFPE
+// instead of quietly setting a flag. Enabled around the library call only (the oracles do their own arithmetic), in a tenth of
+// the runs, for the samplers whose pinned implementation performs no such operation on valid requests (see TrapScope).
+static int g_trap_mask = 0;
+struct TrapScope
+{
+	int old = 0;
+	bool on = false;
+	explicit TrapScope(int kind)
+	{
+		// Metropolis and rejection sampling are left out: on the pinned tree a density that vanishes at the current point makes
+		// the acceptance ratio 0/0 (FE_INVALID) on perfectly valid requests, so those samplers do not run under a trap mask at all
+		on = g_trap_mask && (kind <= 3 || kind == 8);
+		if(on)
+		{
+			std::feclearexcept(FE_ALL_EXCEPT);
+			old = feenableexcept(g_trap_mask);
+		}
+	}
+	~TrapScope()
+	{
+		if(on)
+		{
+			fedisableexcept(FE_ALL_EXCEPT);
+			std::feclearexcept(FE_ALL_EXCEPT);
+			if(old > 0)
+				feenableexcept(old);
+		}
+	}
+};
+std::vector<double> draw_untrapped(std::mt19937& G, const Spec& s, Counters* cnt);
 std::vector<double> draw(std::mt19937& G, const Spec& s, Counters* cnt = nullptr)
+{
+	TrapScope traps(s.kind);
+	return draw_untrapped(G, s, cnt);
+}
+std::vector<double> draw_untrapped(std::mt19937& G, const Spec& s, Counters* cnt)
 {
 	const std::vector<double>& p = s.p;
 	auto tick = [cnt]() {
@@ -401,6 +484,7 @@ struct Exec
 			ctx.violate("C18:pristine-process", "from the same generator state this call returned other samples or left another generator state than the identical call in a pristine process (hidden state shared between calls); " + describe(s));
 	}
 
+	bool planted_u = false;	  // the uniform deviate behind the current single-draw call is a planted extreme (0 or 1-2^-53)
 	void check_support(const Spec& s, const std::vector<double>& out)
 	{
 		const std::vector<double>& p = s.p;
@@ -416,7 +500,7 @@ struct Exec
 				break;
 			case 1:
 				// a Gaussian deviate beyond 9 standard deviations has probability 2e-19: not a fluctuation but a broken tail
-				if(std::fabs(out[0] - p[0]) > 9.0 * p[1])
+				if(std::fabs(out[0] - p[0]) > 9.0 * p[1] && !planted_u)
 					ctx.violate("C18:law:gauss-outlier", fmt("Sample_Gauss returned %.17g = mean %+.2f sigma (probability < 1e-18 under the stated law)", out[0], (out[0] - p[0]) / p[1]) + "; " + describe(s));
 				break;
 			case 2:
@@ -551,6 +635,13 @@ struct Exec
 
 		std::mt19937 G2 = G;
 		const std::mt19937 pre = G;
+		{
+			// is the first uniform deviate of this call an extreme planted by a `plant` op? (0: two zero words; 1-2^-53: two all-ones
+			// words). Its image under the quantile function is a convention, not a fluctuation: the tail oracle steps aside.
+			std::mt19937 peek = G;
+			uint32_t w0 = (uint32_t) peek(), w1 = (uint32_t) peek();
+			planted_u	= (w0 == 0 && w1 == 0) || (w0 == 0xffffffffu && w1 == 0xffffffffu);
+		}
 		Counters c1;
 		std::vector<double> out = draw(G, s, &c1);
 		if(s.pristine)
@@ -912,6 +1003,12 @@ struct Exec
 				break;
 			}
 		G.seed(5489u);
+		g_trap_mask = 0;
+		if(ctx.opts->get("traps", "") == "all" || (mix64(ctx.salt ^ 0x7247ull) % 10) == 0)
+		{
+			g_trap_mask = FE_INVALID | FE_DIVBYZERO | FE_OVERFLOW;
+			ctx.probe(P_TRAPS);
+		}
 		for(size_t k = 0; k < plan.ops.size(); k++)
 		{
 			const Op& o = plan.ops[k];
@@ -930,6 +1027,15 @@ struct Exec
 			{
 				G.discard((unsigned long long) (o.i.empty() ? 1 : o.i[0]));
 				ctx.probe(P_DISCARD);
+				fresh_state = false;
+			}
+			else if(o.kind == "plant")
+			{
+				// adversarial generator state: the property quantifies over ALL states, and some of them make one of the next uniform
+				// deviates exactly 0 (two zero words) or the largest value below 1 (two all-ones words). A seed sweep meets such a
+				// state once in 2^64 draws; here the words are planted at a plan-chosen distance ahead of the current position.
+				plant_words(G, (unsigned) std::max(0ll, std::min(400ll, o.i.empty() ? 0 : o.i[0])), o.i.size() > 1 && o.i[1] ? 0xffffffffu : 0u);
+				ctx.probe(P_PLANT);
 				fresh_state = false;
 			}
 			else if(o.kind == "abort")
@@ -1151,6 +1257,7 @@ struct Gen
 	{
 		Plan p;
 		double conc_frac = atof(opts.get("conc_frac", "0.02").c_str());
+		double plant_frac = atof(opts.get("plant_frac", "0.04").c_str());
 		bool thorough = opts.tier == "thorough";
 		int ncl		  = (int) r.irange(1, 4);
 		std::vector<Spec> bound;
@@ -1234,6 +1341,8 @@ struct Gen
 					s.sample = t.sample, s.thin = t.thin, s.burn = t.burn;
 				}
 				s.pristine = r.chance(0.05) ? 1 : 0;
+				if(r.chance(plant_frac))
+					p.ops.push_back(Op("plant", {2 * (long long) r.irange(0, (s.kind == 6 || s.kind == 7) ? 60 : 6), (long long) r.below(2)}));
 				if(r.chance(conc_frac))
 				{
 					// two callers at once, each with its own generator (see exec_conc)
